@@ -187,3 +187,396 @@ def charclass(items):
         else:
             return None
     return out
+
+
+# ------------------------------------------------------------------------------------------------ normal form and languages
+# Rules compare regular expressions by what they match, not by how they are spelled: `norm` gives a spelling-independent
+# tree ((?:x) == x, [a] == a, x{1} == x, \d == [0-9] under re.ASCII ...), `Lang` is the regular language of an anchor-free
+# sub-expression as a finite automaton (equality / inclusion / membership are decided on the automaton, nothing is run
+# against the expression itself).
+
+OTHER = 256          # stands for every code point above 255 (no pattern analysed here distinguishes them)
+_ALL = frozenset(range(257))
+
+
+class Unsupported(Exception):
+    """The expression uses a construct the language model does not cover (look-around, back-reference, anchor ...)."""
+
+
+def _category(name, flags, isb):
+    ascii_only = isb or bool(flags & re.ASCII)
+    table = {'CATEGORY_DIGIT': r'\d', 'CATEGORY_SPACE': r'\s', 'CATEGORY_WORD': r'\w',
+             'CATEGORY_NOT_DIGIT': r'\D', 'CATEGORY_NOT_SPACE': r'\S', 'CATEGORY_NOT_WORD': r'\W'}
+    if name not in table:
+        raise Unsupported('category %s' % name)
+    if not ascii_only:
+        raise Unsupported('unicode category %s (needs re.ASCII to be a finite table here)' % name)
+    probe = re.compile(table[name], re.ASCII)       # the stdlib's own table of the category, read off per code point
+    s = frozenset(c for c in range(128) if probe.fullmatch(chr(c)))
+    if name.startswith('CATEGORY_NOT_'):
+        s = s | frozenset(range(128, 257))
+    return s
+
+
+def _fold(s, flags):
+    if not (flags & re.IGNORECASE):
+        return s
+    out = set(s)
+    for c in s:
+        if c < 256:
+            ch = chr(c)
+            for v in (ch.lower(), ch.upper()):
+                if len(v) == 1 and ord(v) < 256:
+                    out.add(ord(v))
+    return frozenset(out)
+
+
+def _cp(c):
+    return c if c < 256 else OTHER
+
+
+def charset_of(op, av, flags=0, isb=False):
+    """Set of code points (0..255 and OTHER) a single-character item matches, or None if it is not a single-character item."""
+    n = str(op)
+    if n == 'LITERAL':
+        return _fold(frozenset([_cp(av)]), flags)
+    if n == 'NOT_LITERAL':
+        return _ALL - _fold(frozenset([_cp(av)]), flags)
+    if n == 'ANY':
+        return _ALL if (flags & re.DOTALL) else _ALL - frozenset([10])
+    if n == 'IN':
+        neg = False
+        s = set()
+        for o2, a2 in av:
+            m = str(o2)
+            if m == 'NEGATE':
+                neg = True
+            elif m == 'LITERAL':
+                s.add(_cp(a2))
+            elif m == 'RANGE':
+                lo, hi = a2
+                s.update(range(lo, min(hi, 255) + 1))
+                if hi > 255:
+                    s.add(OTHER)
+            elif m == 'CATEGORY':
+                s.update(_category(str(a2), flags, isb))
+            else:
+                raise Unsupported('class item %s' % m)
+        s = _fold(frozenset(s), flags)
+        return (_ALL - s) if neg else s
+    return None
+
+
+def norm(items, flags=0, isb=False):
+    """Spelling-independent tree of an item list:
+       ('set', frozenset) ('rep', lo, hi|None, greedy, seq) ('grp', gid, seq) ('alt', (seq, ..)) ('at', name)
+       ('look', direction, negated, seq) ('ref', gid); a seq is a tuple of nodes."""
+    out = []
+    for op, av in items:
+        n = str(op)
+        cs = charset_of(op, av, flags, isb)
+        if cs is not None:
+            out.append(('set', cs))
+        elif n in ('MAX_REPEAT', 'MIN_REPEAT', 'POSSESSIVE_REPEAT'):
+            lo, hi, sub = av
+            hi = None if hi is sre_c.MAXREPEAT else int(hi)
+            inner = norm(list(sub), flags, isb)
+            if (int(lo), hi) == (1, 1):
+                out.extend(inner)
+            elif hi == 0:
+                pass
+            else:
+                out.append(('rep', int(lo), hi, n == 'MAX_REPEAT', inner))
+        elif n == 'SUBPATTERN':
+            gid, add, dele, sub = av
+            f2 = (flags | add) & ~dele
+            inner = norm(list(sub), f2, isb)
+            if gid is None:
+                out.extend(inner)
+            else:
+                out.append(('grp', gid, inner))
+        elif n == 'ATOMIC_GROUP':
+            raise Unsupported('atomic group')
+        elif n == 'BRANCH':
+            alts = tuple(norm(list(br), flags, isb) for br in av[1])
+            if all(len(a) == 1 and a[0][0] == 'set' for a in alts):
+                u = frozenset()
+                for a in alts:
+                    u = u | a[0][1]
+                out.append(('set', u))
+            else:
+                out.append(('alt', alts))
+        elif n == 'AT':
+            a = str(av)
+            if flags & re.MULTILINE:
+                a = {'AT_BEGINNING': 'AT_BEGINNING_LINE', 'AT_END': 'AT_END_LINE'}.get(a, a)
+            out.append(('at', a))
+        elif n in ('ASSERT', 'ASSERT_NOT'):
+            out.append(('look', av[0], n == 'ASSERT_NOT', norm(list(av[1]), flags, isb)))
+        elif n == 'GROUPREF':
+            out.append(('ref', av))
+        else:
+            raise Unsupported('regex item %s' % n)
+    return tuple(out)
+
+
+def norm_pattern(pattern, flags=0):
+    p = parse(pattern, flags)
+    return norm(list(p), p.state.flags, isinstance(pattern, (bytes, bytearray))), p
+
+
+def strip_groups(seq):
+    """The tree with capture groups dissolved (what is matched, not what is captured)."""
+    out = []
+    for nd in seq:
+        k = nd[0]
+        if k == 'grp':
+            out.extend(strip_groups(nd[2]))
+        elif k == 'rep':
+            out.append(('rep', nd[1], nd[2], nd[3], strip_groups(nd[4])))
+        elif k == 'alt':
+            out.append(('alt', tuple(strip_groups(a) for a in nd[1])))
+        elif k == 'look':
+            out.append(('look', nd[1], nd[2], strip_groups(nd[3])))
+        else:
+            out.append(nd)
+    return tuple(out)
+
+
+def find_group(seq, gid):
+    """(node, enclosing sequence, index in it) of the capture group gid in a normalised tree, else None."""
+    for i, nd in enumerate(seq):
+        k = nd[0]
+        if k == 'grp':
+            if nd[1] == gid:
+                return nd, seq, i
+            r = find_group(nd[2], gid)
+            if r:
+                return r
+        elif k == 'rep':
+            r = find_group(nd[4], gid)
+            if r:
+                return r
+        elif k == 'alt':
+            for a in nd[1]:
+                r = find_group(a, gid)
+                if r:
+                    return r
+        elif k == 'look':
+            r = find_group(nd[3], gid)
+            if r:
+                return r
+    return None
+
+
+def iter_nodes(seq):
+    for nd in seq:
+        yield nd
+        k = nd[0]
+        if k == 'grp':
+            for x in iter_nodes(nd[2]):
+                yield x
+        elif k == 'rep':
+            for x in iter_nodes(nd[4]):
+                yield x
+        elif k == 'alt':
+            for a in nd[1]:
+                for x in iter_nodes(a):
+                    yield x
+        elif k == 'look':
+            for x in iter_nodes(nd[3]):
+                yield x
+
+
+class Lang(object):
+    """Regular language of an anchor-free normalised sequence (Thompson automaton; decisions by subset construction)."""
+
+    def __init__(self, seq):
+        self.eps = {}        # state -> set(states)
+        self.trans = {}      # state -> [(frozenset, state)]
+        self.n = 0
+        self.start = self._new()
+        self.final = self._seq(strip_groups(seq), self.start)
+
+    @classmethod
+    def of(cls, pattern, flags=0):
+        return cls(norm_pattern(pattern, flags)[0])
+
+    def _new(self):
+        self.n += 1
+        self.eps[self.n] = set()
+        self.trans[self.n] = []
+        return self.n
+
+    def _seq(self, seq, cur):
+        for nd in seq:
+            cur = self._node(nd, cur)
+        return cur
+
+    def _node(self, nd, cur):
+        k = nd[0]
+        if k == 'set':
+            nxt = self._new()
+            self.trans[cur].append((nd[1], nxt))
+            return nxt
+        if k == 'alt':
+            end = self._new()
+            for a in nd[1]:
+                s = self._new()
+                self.eps[cur].add(s)
+                self.eps[self._seq(a, s)].add(end)
+            return end
+        if k == 'rep':
+            lo, hi, inner = nd[1], nd[2], nd[4]
+            for _ in range(lo):
+                cur = self._seq(inner, cur)
+            if hi is None:
+                s = self._new()
+                self.eps[cur].add(s)
+                e = self._seq(inner, s)
+                self.eps[e].add(s)
+                return s
+            end = self._new()
+            self.eps[cur].add(end)
+            for _ in range(hi - lo):
+                cur = self._seq(inner, cur)
+                self.eps[cur].add(end)
+            return end
+        raise Unsupported('%s inside a language' % k)
+
+    def _close(self, states):
+        todo, seen = list(states), set(states)
+        while todo:
+            s = todo.pop()
+            for t in self.eps[s]:
+                if t not in seen:
+                    seen.add(t)
+                    todo.append(t)
+        return frozenset(seen)
+
+    def _step(self, states, c):
+        nxt = set()
+        for s in states:
+            for cs, t in self.trans[s]:
+                if c in cs:
+                    nxt.add(t)
+        return self._close(nxt)
+
+    def _sets(self):
+        return set(cs for lst in self.trans.values() for cs, _ in lst)
+
+    def accepts(self, text):
+        cur = self._close([self.start])
+        for ch in text:
+            cur = self._step(cur, _cp(ch if isinstance(ch, int) else ord(ch)))
+            if not cur:
+                return False
+        return self.final in cur
+
+    def is_empty_language(self):
+        return _search(self, None, lambda a, b: a) is None
+
+    def witness_not_in(self, other):
+        """A string (list of code points) in self but not in other, or None if self is included in other."""
+        return _search(self, other, lambda a, b: a and not b)
+
+
+def _alphabet(*langs):
+    sets = set()
+    for l in langs:
+        if l is not None:
+            sets |= l._sets()
+    sets = list(sets)
+    classes = {}
+    for c in range(257):
+        classes.setdefault(tuple(c in s for s in sets), c)
+    return sorted(classes.values())
+
+
+def _search(a, b, bad):
+    """Breadth-first search of the product automaton for a word on which bad(in a, in b) holds."""
+    sigma = _alphabet(a, b)
+    sa0 = a._close([a.start])
+    sb0 = b._close([b.start]) if b is not None else frozenset()
+    seen = {(sa0, sb0): None}
+    queue = [(sa0, sb0)]
+    while queue:
+        cur = queue.pop(0)
+        sa, sb = cur
+        if bad(a.final in sa, b is not None and b.final in sb):
+            word = []
+            while seen[cur] is not None:
+                cur, c = seen[cur]
+                word.append(c)
+            return list(reversed(word))
+        for c in sigma:
+            na = a._step(sa, c)
+            if not na:
+                continue                  # every question asked here needs the word to be in `a`
+            nb = b._step(sb, c) if b is not None else frozenset()
+            key = (na, nb)
+            if key not in seen:
+                seen[key] = (cur, c)
+                queue.append(key)
+    return None
+
+
+def lang_subset(sub, sup):
+    """Every word of `sub` is a word of `sup` (both Lang)."""
+    return sub.witness_not_in(sup) is None
+
+
+def lang_equal(a, b):
+    return lang_subset(a, b) and lang_subset(b, a)
+
+
+def show_word(word):
+    return ''.join(chr(c) if c < 256 else 'Ā' for c in (word or []))
+
+
+def replacement_for(template, matched):
+    """Result of expanding a re.sub replacement template for a match of the whole-pattern text `matched` when the pattern has
+    no groups other than group 0 (\\g<0>); None if the template refers to other groups."""
+    out = ''
+    i = 0
+    while i < len(template):
+        ch = template[i]
+        if ch != '\\':
+            out += ch
+            i += 1
+            continue
+        m = re.match(r'\\g<0>', template[i:])
+        if m:
+            out += matched
+            i += m.end()
+            continue
+        if i + 1 < len(template) and template[i + 1] in '\\':
+            out += '\\'
+            i += 2
+            continue
+        esc = {'n': '\n', 'r': '\r', 't': '\t'}
+        if i + 1 < len(template) and template[i + 1] in esc:
+            out += esc[template[i + 1]]
+            i += 2
+            continue
+        return None
+    return out
+
+
+def group_is_mandatory(seq, gid):
+    """Does the capture group take part in every match (no optional repeat / alternative / look-around around it)?"""
+    for nd in seq:
+        k = nd[0]
+        if k == 'grp':
+            if nd[1] == gid:
+                return True
+            if find_group(nd[2], gid):
+                return group_is_mandatory(nd[2], gid)
+        elif k == 'rep':
+            if find_group(nd[4], gid):
+                return nd[1] >= 1 and group_is_mandatory(nd[4], gid)
+        elif k in ('alt', 'look'):
+            inner = nd[1] if k == 'alt' else (nd[3],)
+            if any(find_group(a, gid) for a in inner):
+                return False
+    return False
